@@ -1,9 +1,12 @@
 (* Props/C26.v — A persisted database restores identical results and valid memos.
-   Statements only; proofs in Persist/ProofsRoundtrip.v, Persist/ProofsFlatten.v; concrete runs
-   (positive ones, and two refutations replayed on the real crate) in Persist/Examples.v. *)
+   Statements only; proofs in Persist/ProofsRoundtrip.v, Persist/ProofsFlatten.v (structure of
+   the serialised image), Persist/PInv*.v, Persist/PTop.v (the invariant of the persist-mode
+   model and the results theorems); concrete runs (positive ones, and two refutations replayed
+   on the real crate) in Persist/Examples.v. *)
 From Salsa Require Import Base.
 From Salsa.Kern Require Import CoreK.
 From Salsa.Persist Require Import Model Spec ProofsRoundtrip ProofsFlatten Statement Examples.
+From Salsa.Persist Require PInvTop PTop.
 
 (* Round trip, for ALL states: deserialising the serialised database into a fresh one keeps the
    runtime revisions, every input slot, and for every persisted function every memo that has a
@@ -277,6 +280,134 @@ Check C26_reuse_refuted_evicted_dependency :
     last ops OEvict = OGet (0, 0) /\ last twin OEvict = OGet (0, 0).
 Print Assumptions C26_reuse_refuted_evicted_dependency.
 
-(* the positive statement outside the known class, kept visible (NOT proved): *)
+(* ------------------------------------------------------------------------------------
+   RESULTS.  The invariant of the Core model (Core/DInv*.v) ported to the persist-mode model,
+   for inputs of all durabilities, LRU eviction, untracked reads, injected panics.
+
+   (P1) Histories with snapshots but WITHOUT restore, every program, every choice of persisted
+   functions: each request returns the from-scratch value of the current inputs or unwinds with
+   a panic of the base model — outside the known class (a request that hits an uninitialised
+   function ingredient; the hypothesis is kept to have one shape of statement).  This is C01
+   for the persist-mode model (every read recorded, edges never discarded). *)
+Theorem C26_results_no_restore :
+  forall (prog : qkey -> body) (noeq : qkey -> bool) (pfam : N -> bool) (fams : list N)
+         (lru0 : N -> lru_state) (rank : qkey -> nat),
+    calls_below prog rank -> forall NF : nat, (forall q, (rank q < NF)%nat) ->
+    forall fuel sfuel : nat, (forall p, (rank p < fuel)%nat) ->
+    forall (iv : ikey -> val) (idur : ikey -> dur) (ops : list op),
+      (forall i, idur i <= 3) -> Forall dur_op ops -> wf_ops false false ops ->
+      ~ In ORestore ops ->
+      known_class_free prog noeq pfam fams lru0 sfuel fuel (pinit iv idur lru0) ops ->
+      results_ok prog noeq pfam fams lru0 NF sfuel fuel (pinit iv idur lru0) ops.
+Proof. exact PTop.results_no_restore. Qed.
+Check C26_results_no_restore :
+  forall (prog : qkey -> body) (noeq : qkey -> bool) (pfam : N -> bool) (fams : list N)
+         (lru0 : N -> lru_state) (rank : qkey -> nat),
+    calls_below prog rank -> forall NF : nat, (forall q, (rank q < NF)%nat) ->
+    forall fuel sfuel : nat, (forall p, (rank p < fuel)%nat) ->
+    forall (iv : ikey -> val) (idur : ikey -> dur) (ops : list op),
+      (forall i, idur i <= 3) -> Forall dur_op ops -> wf_ops false false ops ->
+      ~ In ORestore ops ->
+      known_class_free prog noeq pfam fams lru0 sfuel fuel (pinit iv idur lru0) ops ->
+      results_ok prog noeq pfam fams lru0 NF sfuel fuel (pinit iv idur lru0) ops.
+Print Assumptions C26_results_no_restore.
+
+(* (P2) restore after snapshot re-establishes the invariant in the fresh database, when the
+   persisted functions only call persisted functions (no dependency is flattened away): from
+   ANY state that satisfies the invariant (PInvTop.OK: there are ghost histories of inputs and
+   durabilities for which PInv.DInv holds) with no query in flight.  The revision rewind is
+   sound: the inputs come back with their stamps.  If the external state is the one the snapshot
+   saw the restored database is ready for requests (PTop.state_ok false), otherwise it is after
+   a new revision (PTop.state_ok true). *)
+Theorem C26_restore_reestablishes_invariant :
+  forall (prog : qkey -> body) (pfam : N -> bool) (lru0 : N -> lru_state) (NF sfuel : nat),
+    persisted_closed prog pfam ->
+    forall s ext : db,
+      d_stack s = [] ->
+      (PInvTop.OK_d prog NF s ->
+       PTop.state_ok prog NF true (restore (Model.snapshot pfam sfuel s) ext lru0)) /\
+      (PInvTop.OK prog NF s -> d_cell ext = d_cell s ->
+       PTop.state_ok prog NF false (restore (Model.snapshot pfam sfuel s) ext lru0)).
+Proof.
+  intros prog pfam lru0 NF sfuel Hc s ext Hst. split.
+  - intros Hok. exact (PTop.restore_ok prog pfam lru0 NF sfuel Hc s ext Hok Hst).
+  - intros Hok He. exact (PTop.restore_ok_clean prog pfam lru0 NF sfuel Hc s ext Hok Hst He).
+Qed.
+Check C26_restore_reestablishes_invariant :
+  forall (prog : qkey -> body) (pfam : N -> bool) (lru0 : N -> lru_state) (NF sfuel : nat),
+    persisted_closed prog pfam ->
+    forall s ext : db,
+      d_stack s = [] ->
+      (PInvTop.OK_d prog NF s ->
+       PTop.state_ok prog NF true (restore (Model.snapshot pfam sfuel s) ext lru0)) /\
+      (PInvTop.OK prog NF s -> d_cell ext = d_cell s ->
+       PTop.state_ok prog NF false (restore (Model.snapshot pfam sfuel s) ext lru0)).
+Print Assumptions C26_restore_reestablishes_invariant.
+
+(* (P3) C26_results_full_statement with ONE more hypothesis, persisted_closed: histories with
+   snapshots, restores, writes of all durabilities, external changes, evictions, injected
+   panics; outside the known class every request returns the from-scratch value or unwinds with
+   a panic of the base model.  (The hypothesis on the serialisation fuel of the full statement
+   is not needed.)  Non-vacuity: Examples.ex_cl_hyps, ex_cl_results. *)
+Theorem C26_results_partial :
+  forall (prog : qkey -> body) (noeq : qkey -> bool) (pfam : N -> bool) (fams : list N)
+         (lru0 : N -> lru_state) (rank : qkey -> nat),
+    calls_below prog rank -> forall NF : nat, (forall q, (rank q < NF)%nat) ->
+    forall fuel sfuel : nat, (forall p, (rank p < fuel)%nat) ->
+    persisted_closed prog pfam ->
+    forall (iv : ikey -> val) (idur : ikey -> dur) (ops : list op),
+      (forall i, idur i <= 3) -> Forall dur_op ops -> wf_ops false false ops ->
+      known_class_free prog noeq pfam fams lru0 sfuel fuel (pinit iv idur lru0) ops ->
+      results_ok prog noeq pfam fams lru0 NF sfuel fuel (pinit iv idur lru0) ops.
+Proof. exact PTop.results_closed. Qed.
+Check C26_results_partial :
+  forall (prog : qkey -> body) (noeq : qkey -> bool) (pfam : N -> bool) (fams : list N)
+         (lru0 : N -> lru_state) (rank : qkey -> nat),
+    calls_below prog rank -> forall NF : nat, (forall q, (rank q < NF)%nat) ->
+    forall fuel sfuel : nat, (forall p, (rank p < fuel)%nat) ->
+    persisted_closed prog pfam ->
+    forall (iv : ikey -> val) (idur : ikey -> dur) (ops : list op),
+      (forall i, idur i <= 3) -> Forall dur_op ops -> wf_ops false false ops ->
+      known_class_free prog noeq pfam fams lru0 sfuel fuel (pinit iv idur lru0) ops ->
+      results_ok prog noeq pfam fams lru0 NF sfuel fuel (pinit iv idur lru0) ops.
+Print Assumptions C26_results_partial.
+
+(* non-vacuity of the three theorems: a persisted-closed program with a write of durability
+   HIGH, a snapshot, a write that the restore undoes, a restore, a write to a leaf of a restored
+   memo — the hypotheses hold and the requests return what the theorem says; a history without
+   restore over the partial_query program (the snapshot flattens); and, computed only (not an
+   instance of a theorem), restore + a later write to a FLATTENED leaf over partial_query *)
+Theorem C26_example_results :
+  (calls_below prog_cl rank_cl /\ (forall q, (rank_cl q < FUEL)%nat) /\
+   persisted_closed prog_cl Examples.pfam /\
+   Forall dur_op ops_cl /\ wf_ops false false ops_cl /\
+   known_class_free prog_cl Examples.noeq Examples.pfam [1] lru2 FUEL FUEL (pinit Examples.iv (fun _ => 0) lru2) ops_cl) /\
+  (results_ok prog_cl Examples.noeq Examples.pfam [1] lru2 FUEL FUEL FUEL (pinit Examples.iv (fun _ => 0) lru2) ops_cl /\
+   snd (run prog_cl [1] lru2 ops_cl)
+   = [POk 2; POk 0; POk 6; POk 0; POk 0; POk 14; POk 0; POk 1; POk 6; POk 0; POk 12; POk 0; POk 12]) /\
+  (results_ok prog_pq Examples.noeq Examples.pfam [] nolru FUEL FUEL FUEL (pinit Examples.iv (fun _ => 0) nolru) ops_nr /\
+   snd (run prog_pq [] nolru ops_nr) = [POk 2; POk 0; POk 0; POk 8; POk 0; POk 0; POk 0; POk 7]) /\
+  (let r := run prog_pq [] nolru ops_flat in
+   snd r = [POk 2; POk 0; POk 0; POk 2; POk 0; POk 8; POk 7; POk 0; POk 0; POk 0; POk 8; POk 0; POk 8] /\
+   wf_ops false false ops_flat /\ ~ persisted_closed prog_pq Examples.pfam).
+Proof. exact (conj ex_cl_hyps (conj ex_cl_results (conj ex_nr_results ex_flat_results))). Qed.
+Check C26_example_results :
+  (calls_below prog_cl rank_cl /\ (forall q, (rank_cl q < FUEL)%nat) /\
+   persisted_closed prog_cl Examples.pfam /\
+   Forall dur_op ops_cl /\ wf_ops false false ops_cl /\
+   known_class_free prog_cl Examples.noeq Examples.pfam [1] lru2 FUEL FUEL (pinit Examples.iv (fun _ => 0) lru2) ops_cl) /\
+  (results_ok prog_cl Examples.noeq Examples.pfam [1] lru2 FUEL FUEL FUEL (pinit Examples.iv (fun _ => 0) lru2) ops_cl /\
+   snd (run prog_cl [1] lru2 ops_cl)
+   = [POk 2; POk 0; POk 6; POk 0; POk 0; POk 14; POk 0; POk 1; POk 6; POk 0; POk 12; POk 0; POk 12]) /\
+  (results_ok prog_pq Examples.noeq Examples.pfam [] nolru FUEL FUEL FUEL (pinit Examples.iv (fun _ => 0) nolru) ops_nr /\
+   snd (run prog_pq [] nolru ops_nr) = [POk 2; POk 0; POk 0; POk 8; POk 0; POk 0; POk 0; POk 7]) /\
+  (let r := run prog_pq [] nolru ops_flat in
+   snd r = [POk 2; POk 0; POk 0; POk 2; POk 0; POk 8; POk 7; POk 0; POk 0; POk 0; POk 8; POk 0; POk 8] /\
+   wf_ops false false ops_flat /\ ~ persisted_closed prog_pq Examples.pfam).
+Print Assumptions C26_example_results.
+
+(* the positive statement outside the known class without the extra hypothesis, kept visible
+   (NOT proved: restore when a persisted function calls a non-persisted one, see
+   Persist/Statement.v): *)
 Check C26_results_full_statement : Prop.
 Print C26_results_full_statement.
